@@ -7,7 +7,7 @@ import shutil
 from pathlib import Path
 from typing import Any
 
-from harness import core
+from harness import core, engine_pairs
 
 RULE = (
     "ancestor-merge: random DAGs (1-8 stages, stage i requires a random subset of 0..i-1, random ref-id strings so the "
@@ -20,19 +20,28 @@ RULE = (
     "real reducer functions vs the model, and the order-insensitivity oracles. loop: real engine runs of jump loops (A -> .. -> B, B jumps "
     "back to A n times, A's outputs change per iteration) recording what B's task is handed. engine-dag: real engine runs of random DAGs "
     "with a scripted task per stage recording the context it is handed. A case is distinct by its canonical driver line; non-trivial when "
-    "the target stage has >= 2 ancestors (merge), >= 2 values (reducers) or >= 2 iterations (loop).")
+    "the target stage has >= 2 ancestors (merge), >= 2 values (reducers) or >= 2 iterations (loop). "
+    "PLUS the interleaving pair `startmerge` (harness/engine_pairs.py, Mode B, implementation-only): a1, a2 -> j -> d with the upstreams publishing "
+    "items=[a1] / [a2], score=3 / 4, j's own context items=[own], score=0 and output_reducers score=sum; StartStage(j) x a persistent SignalStage(j) in "
+    "both directions with the other worker's whole delivery at EVERY legal DB-call point (in particular between StartStage's claim commit and its plan "
+    "commit, so that the plan commit loses its version check and merges the re-read row); the context handed to j's task must equal what the un-raced "
+    "in-order run hands over (items = a1, a2, own; score = 7), keys starting with `_` aside.")
 ASSUMPTIONS = [
     "values are JSON atoms None/int/str, lists of atoms, dicts str->atom (no floats, no bools: Python's `in`/== would identify 1, 1.0 and True)",
     "stage graphs are valid (Workflow.create rejects dangling requisites and cycles; C20)",
     "tasks do not write the engine's reserved `_...` context keys; reserved keys are ignored when comparing contexts",
     "jump-loop model: tasks return outputs only (no TaskResult.context / jump_context writes)",
     "max/min over list or dict values and collect/extend over dict values are outside the modelled value space and not generated",
+    "startmerge pair: Mode B granularity (the signal handler runs atomically inside a read / write window of StartStage, and vice versa); one fixed workflow",
 ]
 TRUSTED_BASE = [
     "the hand-written model Stab.Merge of get_merged_ancestor_outputs / _plan_stage / reducers.py / reset_stage_for_retry(context part), "
     "tied to the code by this correspondence only",
     "the order of the direct upstream branches handed to the reducers is whatever get_upstream_stages returns (SQL without ORDER BY); "
     "the model takes it as an input",
+    "startmerge pair: no model line — the reference is the real engine's own un-raced in-order run of the same snapshot (computed in the worker "
+    "process before the schedules), so the oracle is 'a concurrent non-claim write to the stage row does not change what planning hands to the task'; "
+    "that the un-raced value is the right merge is what the plan / engine-dag suites and the theorems are about",
 ]
 
 PROBE = "zz"
@@ -813,6 +822,8 @@ def run_replays(ctx, lines, inputs, impl, env):
     for f in sorted(d.glob("*.json")) if d.is_dir() else []:
         body = json.loads(f.read_text())
         body = body.get("replay", body)
+        if isinstance(body, dict) and "enginepair" in body:
+            continue      # Mode B engine-pair witnesses are re-run by harness/engine_pairs.py (replay_units)
         dispatch(ctx, body, lines, inputs, impl, env)
         ctx.tag("replay-file")
 
@@ -848,6 +859,16 @@ def dispatch(ctx, body, lines, inputs, impl, env):
 
 def run(ctx) -> None:
     core.ensure_repo_on_path()
+    pairs = engine_pairs.start(ctx, "C16")     # the startmerge pair runs in worker processes while the suites below run here
+    try:
+        _run_suites(ctx)
+    except BaseException:
+        pairs["pool"].terminate()
+        raise
+    engine_pairs.finish(ctx, pairs)
+
+
+def _run_suites(ctx) -> None:
     rng = ctx.rng
     env = Env()
     try:
@@ -926,6 +947,9 @@ def search(ctx) -> None:
 
 def replay(ctx, body) -> int:
     core.ensure_repo_on_path()
+    rp = body.get("replay") or body
+    if isinstance(rp, dict) and "enginepair" in rp:
+        return engine_pairs.replay(ctx, body, "C16")
     body = body.get("replay", body)
     env = Env()
     lines, inputs, impl = [], [], []
